@@ -16,7 +16,9 @@ def plan(tier, seed):
              "(default markers and markers with metacharacters)")
     else:
         for pt in (0, 1, 2):
-            conds += hist_conds("c11", 3, 1500, {"C11_PRETEXT": pt}, by_name=True, nn=2, nd=1)
+            plain = hist_conds("c11", 3, 1500, {"C11_PRETEXT": pt}, by_name=True, nn=2, nd=1)
+            split = hist_conds("c11", 3, 1500, {"C11_PRETEXT": pt}, by_name=True, nn=2, nd=1, by_op1=True)
+            conds += [c for c in plain if "-replace-" not in c.name] + [c for c in split if "-replace-" in c.name]
             conds += hist_conds("c11", 2, 900, {"C11_PRETEXT": pt}, by_name=True, nd=1)
         conds += hist_conds("c11", 2, 900, {"C11_PRETEXT": 0}, by_name=True, nd=2)
         b = ("all histories of length 3 over 2 names and of length 2 over 3 names (+ bytes alias), with default markers, custom "
